@@ -30,6 +30,23 @@ def rotvec():
     return st.tuples(gens.direction3(), mags).map(lambda t: {"axis": t[0], "mag": t[1]})
 
 
+def noise(n):
+    """rounding-size perturbation of the rotation block (what composition of valid members leaves behind): None or
+    {'k': size in eps, 'sym': symmetric pattern?, 'pat': n numbers in [-1,1]} -- well inside the library's 100-eps membership test"""
+    return st.one_of(st.none(), st.none(), st.fixed_dictionaries({"k": st.sampled_from([1.0, 3.0, 8.0]), "sym": st.booleans(),
+                                                                  "pat": st.lists(st.one_of(gens.fl(-1, 1), st.sampled_from([0.0, 1.0, -1.0])), min_size=n, max_size=n)}))
+
+
+def add_noise(R, nz):
+    if not nz:
+        return R
+    d = R.shape[0]
+    N = np.array(nz["pat"], dtype=float).reshape(d, d)
+    if nz["sym"]:
+        N = (N + N.T) / 2
+    return R + nz["k"] * np.finfo(float).eps * N
+
+
 def s_exp3():
     return st.fixed_dictionaries({"kind": st.just("exp3"), "w": rotvec(), "v": st.one_of(gens.trans(3, -6, 6), st.just([0.0, 0.0, 0.0])),
                                   "se": st.booleans(), "matrix": st.booleans(), "theta_form": st.booleans()})
@@ -37,7 +54,8 @@ def s_exp3():
 
 def s_log3():
     return st.fixed_dictionaries({"kind": st.just("log3"), "w": rotvec(), "v": st.one_of(gens.trans(3, -6, 6), st.just([0.0, 0.0, 0.0])),
-                                  "se": st.booleans(), "twist": st.booleans(), "via": st.sampled_from(["rod", "quat"])})
+                                  "se": st.booleans(), "twist": st.booleans(), "via": st.sampled_from(["rod", "quat"]),
+                                  "noise": noise(9)})
 
 
 def s_exp2():
@@ -49,7 +67,7 @@ def s_exp2():
 def s_log2():
     return st.fixed_dictionaries({"kind": st.just("log2"), "w": st.one_of(gens.angle2(), gens.signed_logmag(-12, 0.49), gens.signed_logmag(-4, -1)),
                                   "v": st.one_of(gens.trans(2, -6, 6), st.just([0.0, 0.0])),
-                                  "se": st.booleans(), "twist": st.booleans()})
+                                  "se": st.booleans(), "twist": st.booleans(), "noise": noise(4)})
 
 
 def check_case(case):
@@ -90,7 +108,7 @@ def _exp3(case):
             unit_vec = vec / theta
         else:
             unit_vec = None
-        if unit_vec is not None:
+        if unit_vec is not None and np.all(np.isfinite(unit_vec)):   # v/|w| overflows for |w| ~ 1e-308: not a finite input
             uarg = (refs.hat6(unit_vec[:3], unit_vec[3:]) if se else refs.skew3(unit_vec)) if case["matrix"] else unit_vec
             ok, E2 = c.lib("trexp(S,theta)", b.trexp, uarg, theta)
             if ok:
@@ -156,7 +174,7 @@ def _log3(case):
     th = case["w"]["mag"]
     se, twist = case["se"], case["twist"]
     c = Checker("log3", theta=th, pi_minus_theta=PI - th, se=se, twist=twist)
-    R = refs.rot_of({"axis": case["w"]["axis"], "angle": th, "via": case["via"]})
+    R = add_noise(refs.rot_of({"axis": case["w"]["axis"], "angle": th, "via": case["via"]}), case.get("noise"))
     if se:
         T = refs.expm_se3(v, w)
         T[:3, :3] = R
@@ -210,7 +228,7 @@ def _exp2(case):
             unit_vec = vec / theta
         else:
             unit_vec = None
-        if unit_vec is not None:
+        if unit_vec is not None and np.all(np.isfinite(unit_vec)):   # v/|w| overflows for |w| ~ 1e-308: not a finite input
             uarg = (refs.hat3(unit_vec[:2], unit_vec[2]) if se else np.array([[0.0, -unit_vec[0]], [unit_vec[0], 0.0]])) if case["matrix"] else unit_vec
             ok, E2 = c.lib("trexp2(S,theta)", b.trexp2, uarg, theta)
             if ok:
@@ -275,8 +293,9 @@ def _log2(case):
     if se:
         T = refs.expm_se2(v, w)
         S_want = np.r_[v, w]
+        T[:2, :2] = add_noise(T[:2, :2], case.get("noise"))
     else:
-        T = refs.rot2(w)
+        T = add_noise(refs.rot2(w), case.get("noise"))
         S_want = np.array([w])
     ok, Lg = c.lib("trlog2", b.trlog2, T.copy(), twist=twist)
     if ok:
@@ -304,7 +323,7 @@ def classify(case):
     lab = {"kind:" + k: True,
            "theta<1e-6": 0 < th < 1e-6, "theta=0": th == 0, "pi-theta<1e-4": PI - th < 1e-4, "theta=pi": th == PI,
            "|v|>1e3": tm > 1e3, "pure_translation": th == 0 and tm > 0,
-           "matrix_form": bool(case.get("matrix")), "twist=True": bool(case.get("twist")), "se": case["se"]}
+           "rounding_noise": bool(case.get("noise")), "matrix_form": bool(case.get("matrix")), "twist=True": bool(case.get("twist")), "se": case["se"]}
     lab["nontrivial"] = bool((th < 1e-6) or (PI - th < 1e-4) or tm > 1e3 or lab["pure_translation"] or case.get("matrix"))
     return lab
 
